@@ -11,7 +11,7 @@ for ID in "$@"; do
   PROP=$(python3 -c "import json;print(json.load(open('/verif/seeded/$ID/meta.json'))['property'])" 2>/dev/null || echo ${ID%-*})
   [ -n "$SEED_PROP" ] && PROP=$SEED_PROP
   ( cd $R && git apply /verif/seeded/$ID/patch.diff ) || { echo "$ID: cannot apply"; continue; }
-  ( cd $S && timeout 1800 bin/vsym check -root $S -repo $R -property $PROP -tier ${SEED_TIER:-quick} ) > /tmp/seedrun_${ID}_${PROP}.log 2>&1; RC=$?
+  ( cd $S && timeout 1800 bin/vsym check -root $S -repo $R -property $PROP -tier ${SEED_TIER:-quick} -j ${SEED_J:-16} ) > /tmp/seedrun_${ID}_${PROP}.log 2>&1; RC=$?
   ( cd $R && git checkout -q -- . )
   echo "seed $ID vs $PROP: exit=$RC $(grep -c '^VIOLATION' /tmp/seedrun_${ID}_${PROP}.log) violation lines; $(grep -m1 'violated:' /tmp/seedrun_${ID}_${PROP}.log | cut -c1-200)"
   grep -m2 "INCONCLUSIVE" /tmp/seedrun_${ID}_${PROP}.log | cut -c1-250
